@@ -89,6 +89,24 @@ def inv_root(a, p, eps, relative=True):
   return (v * w ** (-1.0 / p)) @ v.T
 
 
+def compressed_root(a, p, eps, r, relative=True):
+  """Dense matrix denoted by the documented low-rank root (compression_rank = r): the inverse p-th root of
+  a + d I with all but the |r| retained eigen-directions (largest eigenvalues for r > 0, smallest for r < 0)
+  replaced by the mean of their root values."""
+  a = np.asarray(a, np.float64)
+  a = (a + a.T) / 2
+  w, v = np.linalg.eigh(a)                      # ascending
+  lam = max(w.max(), 0.0)
+  d = eps * max(lam, 1e-6) if relative else eps
+  inv = (np.maximum(w, 0.0) + d) ** (-1.0 / p)
+  n = len(w)
+  keep = np.arange(n - r, n) if r > 0 else np.arange(0, -r)
+  rest = np.setdiff1d(np.arange(n), keep)
+  inv2 = inv.copy()
+  inv2[rest] = inv[rest].mean()
+  return (v * inv2) @ v.T
+
+
 def graft_step(kind, g, hist, coefs, diag_eps, clip=None):
   """lr-free graft step for gradient g; hist = list of past grads incl. g (1-based s),
   coefs = accumulator coefficients over steps (floats)."""
